@@ -194,6 +194,19 @@ struct Case {
     sched_seed: u64,
 }
 
+/// Which implementation the model mirrors: `false` = /repo HEAD, `true` = notes/C05-fixes/01 (the select waits
+/// for its await answer). FLIP THE DEFAULT when the patch lands; `QVERIF_SELECT_WAITS=0|1` overrides it (used
+/// to run the check against a worktree that has the patch).
+const SELECT_WAITS_DEFAULT: bool = false;
+
+fn select_waits() -> bool {
+    match std::env::var("QVERIF_SELECT_WAITS").ok().as_deref() {
+        Some("1") => true,
+        Some("0") => false,
+        _ => SELECT_WAITS_DEFAULT,
+    }
+}
+
 fn helper_value(i: usize) -> i64 {
     1000 + i as i64
 }
@@ -655,7 +668,39 @@ fn gen_co_awaiter_scenario(r: &mut Rng) -> Scenario {
     }
 }
 
+/// The awaited helper finishes (or fails) at once, p reaches its select later, and a message (or nothing but a
+/// zero timeout) competes with it: the helper is CERTAINLY finished when the select starts, so it must win over
+/// every later source whatever arrives between the await query and its answer (C05-F2).
+fn gen_finished_target_scenario(r: &mut Rng) -> Scenario {
+    let helpers = vec![Helper { trigger: Trigger::Now, fails: r.chance(1, 3) }];
+    let mut sources = vec![Src::Await(0)];
+    let with_recv = r.chance(2, 3);
+    if with_recv {
+        sources.push(Src::Recv { tys: vec![Ty::Int], filter: None });
+    }
+    if !with_recv || r.chance(1, 2) {
+        sources.push(Src::Timeout("0".into()));
+    }
+    let mut script = vec![];
+    if with_recv {
+        script.push(Act { sleep: None, spin: *r.pick(&[0u32, 20, 40, 60, 80, 120]), kind: ActKind::Send(Msg::Int(r.range(0, 9))) });
+    }
+    Scenario {
+        sources,
+        helpers,
+        script,
+        final_sleep: Some(5),
+        p_delay: *r.pick(&[20u32, 40, 60, 80]),
+        report: true,
+        pads: r.usize(3),
+        ..Default::default()
+    }
+}
+
 fn gen_scenario(r: &mut Rng) -> Scenario {
+    if r.chance(1, 10) {
+        return gen_finished_target_scenario(r);
+    }
     if r.chance(1, 8) {
         return gen_update_scenario(r);
     }
@@ -850,7 +895,27 @@ fn real_state(sim: &Sim, w: usize, pid: usize) -> Option<String> {
     let mut af: Vec<(usize, String)> = p.awaiting_failed.iter().map(|(k, e)| (*k, qverif::canon::error_class(e))).collect();
     af.sort();
     let af: Vec<String> = af.iter().map(|(k, e)| format!("({k} {e})")).collect();
-    Some(format!("mb=({}) aw=({}) af=({}) sel={} parked={} res={}", mb.join(" "), aw.join(" "), af.join(" "), sel, parked, res))
+    // `SelectState.unanswered` exists only in the patched code: read it from the Debug rendering so that this
+    // file builds against both
+    let un = if select_waits() {
+        let list = match &p.select_state {
+            None => String::new(),
+            Some(st) => {
+                let d = format!("{st:?}");
+                match d.find("unanswered: [") {
+                    Some(i) => {
+                        let rest = &d[i + "unanswered: [".len()..];
+                        rest[..rest.find(']').unwrap_or(0)].replace(',', "")
+                    }
+                    None => "<no unanswered field: the implementation is not the patched one>".to_string(),
+                }
+            }
+        };
+        format!(" un=({list})")
+    } else {
+        String::new()
+    };
+    Some(format!("mb=({}) aw=({}) af=({}) sel={} parked={} res={}{}", mb.join(" "), aw.join(" "), af.join(" "), sel, parked, res, un))
 }
 
 /// receive index of the held message in a model state string
@@ -911,6 +976,13 @@ struct Completion {
     start: Option<u64>,
     entered: u64,
     spec: String,
+    /// the specification with system-level readiness: known results, else what had certainly finished before the
+    /// select was initialised
+    #[allow(dead_code)]
+    spec_sys: String,
+    certain: String,
+    /// what woke the select last before it completed: "message" | "answer" | ""
+    woken_by: String,
     delivered: Vec<String>,
     results: String,
 }
@@ -924,6 +996,7 @@ struct Death {
     /// had p itself finished before?
     after_finish: bool,
     spec: String,
+    spec_sys: String,
     /// "propagated" (error of an awaited process arrived) | "filter" (p's own receive function raised) | "unknown"
     cause: String,
 }
@@ -950,6 +1023,10 @@ struct Runner<'a> {
     mstate: String,
     /// (model state, next-timeout answer) of the last next-timeout comparison
     last_nt: (String, String),
+    /// awaited helpers that HAD a result when the first select was initialised (real system state):
+    /// pid -> "(ok v)" | "(err C)". Ready at system level whatever p has been told.
+    certain: BTreeMap<usize, String>,
+    woken_by: String,
 }
 
 impl<'a> Runner<'a> {
@@ -978,6 +1055,21 @@ impl<'a> Runner<'a> {
             self.sc.site0_sx(),
             self.delivered.join(" "),
             self.results_sx(),
+            start,
+            now
+        );
+        self.model.ask(&line)
+    }
+
+    fn spec_sys_now(&mut self, now: u64) -> String {
+        let start = self.start.unwrap_or(now);
+        let cs: Vec<String> = self.certain.iter().map(|(k, r)| format!("({k} {r})")).collect();
+        let line = format!(
+            "(spec-sys {} (mailbox {}) {} (certain {}) {} {})",
+            self.sc.site0_sx(),
+            self.delivered.join(" "),
+            self.results_sx(),
+            cs.join(" "),
             start,
             now
         );
@@ -1044,6 +1136,7 @@ impl<'a> Runner<'a> {
                         self.out.arrivals_during_filter += 1;
                     }
                     self.delivered.push(v.clone());
+                    self.woken_by = "message".into();
                     let a = self.ask(format!("(msg {v})"));
                     evlog.push(format!("msg {v}"));
                     let _ = a;
@@ -1058,6 +1151,16 @@ impl<'a> Runner<'a> {
                         }
                     }
                     rs.sort();
+                    self.woken_by = "answer".into();
+                    if select_waits() {
+                        // `None` entries: "not finished yet, you are registered" (`notify_pending`)
+                        let mut ps: Vec<usize> = results.iter().filter(|(_, r)| r.is_none()).map(|(k, _)| *k).collect();
+                        ps.sort();
+                        for pid in ps {
+                            self.ask(format!("(pending {pid})"));
+                            evlog.push(format!("pending {pid}"));
+                        }
+                    }
                     for (pid, r) in rs {
                         if recv_idx(&self.mstate).is_some() {
                             self.out.results_during_filter += 1;
@@ -1089,17 +1192,32 @@ impl<'a> Runner<'a> {
                     self.site0_execs += 1;
                     if self.site0_execs == 1 {
                         self.entered = Some(now);
+                        self.woken_by.clear();
+                        for s in &self.sc.sources {
+                            if let Src::Await(k) = s
+                                && let Some(r) = self.helper_result(k + 1)
+                            {
+                                let rs = match r {
+                                    Ok(v) => format!("(ok {v})"),
+                                    Err(c) => format!("(err {c})"),
+                                };
+                                self.certain.insert(k + 1, rs);
+                            }
+                        }
                         if !self.sc.sources.iter().any(|s| matches!(s, Src::Await(_))) {
                             self.start = Some(now);
                         }
-                    } else if self.start.is_none() {
-                        self.start = Some(now);
                     }
                 }
                 // a Select execution may start a new select with other sources: the cached next-timeout is void
                 self.last_nt = (String::new(), String::new());
                 let before = recv_idx(&self.mstate);
                 let a = self.ask(format!("(select {site} {now})"));
+                // the first EVALUATION sets the start time (`ensure_select_start_time`); under the variant a
+                // woken select with unanswered targets parks again without evaluating (`start none` stays)
+                if site == 0 && self.site0_execs > 1 && self.start.is_none() && !(a.starts_with("parked") && a.contains("start none")) {
+                    self.start = Some(now);
+                }
                 if a.starts_with("called")
                     && let (Some(b), Some(n)) = (before, recv_idx(&a))
                     && n < b
@@ -1152,11 +1270,15 @@ impl<'a> Runner<'a> {
         if !self.completed0 && failed_now.is_none() && self.real_past_site0() {
             self.completed0 = true;
             let spec = self.spec_now(now);
+            let spec_sys = self.spec_sys_now(now);
             self.out.completion = Some(Completion {
                 now,
                 start: self.start,
                 entered: self.entered.unwrap_or(now),
                 spec: spec.clone(),
+                spec_sys,
+                certain: self.certain.iter().map(|(k, r)| format!("({k} {r})")).collect::<Vec<_>>().join(" "),
+                woken_by: self.woken_by.clone(),
                 delivered: self.delivered.clone(),
                 results: self.results_sx(),
             });
@@ -1173,12 +1295,14 @@ impl<'a> Runner<'a> {
             && self.out.death.is_none()
         {
             let spec = self.spec_now(now);
+            let spec_sys = self.spec_sys_now(now);
             self.out.death = Some(Death {
                 now,
                 class: class.clone(),
                 after_completion: self.completed0,
                 after_finish: was_finished,
                 spec,
+                spec_sys,
                 cause,
             });
         }
@@ -1322,6 +1446,7 @@ fn run_case(case: &Case, model: &mut Model, log_events: bool) -> Outcome {
     let sim = Sim::new(n, case.quantum, qverif::run::builtins(), false).with_repl(HashMap::new());
     let pp = sc.p_pid();
     let pw = pp % n;
+    model.ask(if select_waits() { "(variant on)" } else { "(variant off)" });
     let a = model.ask(&sc.sites_sx());
     let mut out = Outcome::default();
     if a != "ok" {
@@ -1342,6 +1467,8 @@ fn run_case(case: &Case, model: &mut Model, log_events: bool) -> Outcome {
         start: None,
         site0_execs: 0,
         completed0: false,
+        certain: BTreeMap::new(),
+        woken_by: String::new(),
         out,
         log_events,
         mstate: String::new(),
@@ -1560,6 +1687,40 @@ fn judge(case: &Case, o: &Outcome, ev: &mut Ev) -> Vec<Verdict> {
             failing_input_found: false,
         });
     }
+    // --- system-level readiness: a target that had finished BEFORE the select started is ready, told or not ---
+    if let Some(c) = &o.completion
+        && c.spec_sys != c.spec
+    {
+        let cause = if c.spec_sys.starts_with("fails") {
+            "failed-target-placeholder-window"
+        } else if c.woken_by == "answer" {
+            "stale-answer-credited"
+        } else {
+            "priority"
+        };
+        vs.push(Verdict {
+            signature: format!("select=evaluates-before-await-answer cause={cause}"),
+            what: format!(
+                "the select completed (t={}, woken by {}) with `{}` — the first ready source by what p had been TOLD ({}) — but [{}] had finished before the select started: by what is TRUE the first ready source gives `{}` (docs/spec.md: \"prioritising `p1` if both are already finished\")",
+                c.now, if c.woken_by.is_empty() { "nothing" } else { &c.woken_by }, c.spec, c.results, c.certain, c.spec_sys
+            ),
+            failing_input_found: true,
+        });
+    }
+    if let Some(d) = &o.death
+        && !d.after_completion
+        && d.cause != "filter"
+        && d.spec_sys != d.spec
+    {
+        vs.push(Verdict {
+            signature: "select=evaluates-before-await-answer cause=priority".into(),
+            what: format!(
+                "p failed with {} at t={} (first ready source by what p had been told: `{}`), but a target that had finished before the select started makes the first ready source `{}`",
+                d.class, d.now, d.spec, d.spec_sys
+            ),
+            failing_input_found: true,
+        });
+    }
     // --- oracle at completion ----------------------------------------------------------------
     let died = o.death.is_some();
     match (&o.completion, &o.p_fields) {
@@ -1707,6 +1868,80 @@ fn case_json(case: &Case, o: &Outcome) -> serde_json::Value {
     })
 }
 
+
+/// A corpus witness given as plain REPL lines (no model correspondence): the lines are evaluated one after the
+/// other in one simulated system under `schedules` random schedules; the LAST line must give `expect` on every
+/// schedule, else the file's `signature` is reported (a KNOWN-FINDING while it is listed as known).
+#[derive(Clone, Debug, Serialize, Deserialize)]
+struct RawWitness {
+    lines: Vec<String>,
+    workers: usize,
+    #[serde(default)]
+    quantum: Option<usize>,
+    /// rendered outcome of the last line (`i1`, `error:InvalidArgument`, …); earlier lines are not judged
+    expect: String,
+    signature: String,
+    what: String,
+}
+
+/// outcome of the last line under schedule `k` (0 = fair rounds), plus the simulator's fault list
+fn run_raw(w: &RawWitness, base: u64, k: u64) -> (String, Vec<String>) {
+    let mut sim = Sim::new(w.workers, w.quantum, qverif::run::builtins(), false).with_repl(HashMap::new());
+    let mut r = Rng::for_case(base, k);
+    let pol = Policy::random(&mut r, w.workers);
+    let mut last = String::new();
+    for l in &w.lines {
+        last = match qverif::catch(std::panic::AssertUnwindSafe(|| {
+            if k == 0 { eval_in(&mut sim, l, None, 20000) } else { eval_in(&mut sim, l, Some((&mut r, &pol)), 20000) }
+        })) {
+            Ok(o) => o.render(),
+            Err(p) => format!("harness-panic:{p}"),
+        };
+    }
+    (last, sim.faults.iter().map(|f| format!("{f:?}")).collect())
+}
+
+fn run_raw_witnesses(dir: &str, ev: &mut Ev, schedules: u64, seed: u64) {
+    let Ok(rd) = std::fs::read_dir(dir) else { return };
+    let mut files: Vec<_> = rd.filter_map(|e| e.ok()).map(|e| e.path()).filter(|p| p.extension().map(|x| x == "json").unwrap_or(false)).collect();
+    files.sort();
+    for f in files {
+        let Ok(text) = std::fs::read_to_string(&f) else { continue };
+        let Ok(j) = serde_json::from_str::<serde_json::Value>(&text) else { continue };
+        let Ok(w) = serde_json::from_value::<RawWitness>(j["raw"].clone()) else { continue };
+        let name = f.file_name().unwrap().to_string_lossy().to_string();
+        let base = 0xC05F ^ seed;
+        let mut bad = 0u64;
+        let mut first: Option<(u64, String)> = None;
+        let n = j["schedules"].as_u64().unwrap_or(schedules);
+        for k in 0..=n {
+            let (out, faults) = run_raw(&w, base, k);
+            ev.case(&(name.as_str(), k, seed), true);
+            ev.hit("raw-witness-schedules");
+            if !faults.is_empty() {
+                ev.violation("kind=worker-internal-error", &format!("worker/environment fault in witness {name}: {faults:?}"), json!({"raw": w, "schedule_base": base, "schedule": k, "file": name}), true);
+            }
+            if out != w.expect {
+                bad += 1;
+                if first.is_none() {
+                    first = Some((k, out));
+                }
+            }
+        }
+        if let Some((k, out)) = first {
+            ev.add(&format!("raw-witness-deviating:{name}"), bad);
+            ev.violation(
+                &w.signature,
+                &format!("{} — witness {name}: last line gave `{out}` instead of `{}` on {bad} of {} schedules (first: schedule {k})", w.what, w.expect, n + 1),
+                json!({"raw": w, "schedule_base": base, "schedule": k, "file": name}),
+                true,
+            );
+        } else {
+            ev.hit(&format!("raw-witness-clean:{name}"));
+        }
+    }
+}
+
 fn main() {
     if std::env::var("QVERIF_LOUD").is_err() {
         qverif::quiet_panics();
@@ -1721,6 +1956,18 @@ fn main() {
     if let Some(p) = &opts.replay {
         let text = std::fs::read_to_string(p).expect("replay file");
         let j: serde_json::Value = serde_json::from_str(&text).expect("json");
+        let rj = if j.get("replay").is_some() { j["replay"].clone() } else { j.clone() };
+        if rj.get("raw").is_some() {
+            let w: RawWitness = serde_json::from_value(rj["raw"].clone()).expect("raw witness");
+            let base = rj["schedule_base"].as_u64().unwrap_or(0xC05F);
+            let k = rj["schedule"].as_u64().unwrap_or(0);
+            let (out, faults) = run_raw(&w, base, k);
+            println!("{}\nschedule {k}: last line => {out} (expected {}) faults={faults:?}", w.lines.join("\n"), w.expect);
+            if out != w.expect {
+                ev.violation(&w.signature, &format!("{}: `{out}` instead of `{}`", w.what, w.expect), rj.clone(), true);
+            }
+            std::process::exit(ev.finish());
+        }
         let cj = if j.get("replay").is_some() { j["replay"]["case"].clone() } else if j.get("case").is_some() { j["case"].clone() } else { j.clone() };
         let case: Case = serde_json::from_value(cj).expect("case");
         println!("{}", case.scenario.source());
@@ -1738,6 +1985,9 @@ fn main() {
         }
         std::process::exit(ev.finish());
     }
+
+    // plain-program witnesses (corpus files with a `raw` entry)
+    run_raw_witnesses("/verif/corpus/C05", &mut ev, opts.tier.pick(150, 1500), opts.seed);
 
     let mut cases: Vec<(String, Case)> = vec![];
     // regression corpus first
@@ -1807,6 +2057,11 @@ fn main() {
         };
         ev.hit(&format!("family:{fam}"));
         ev.add(&format!("family-ms:{fam}"), t_case.elapsed().as_millis() as u64);
+        if let Some(c) = &o.completion
+            && !c.certain.is_empty()
+        {
+            ev.hit("select-started-with-a-finished-target");
+        }
         let nontrivial = o.rejected.is_none() && o.selects >= 2;
         ev.case(&(serde_json::to_string(case).unwrap()), nontrivial);
         // distribution counters
